@@ -195,7 +195,6 @@ func c12RunVotes(cfg c12VoteCfg) {
 			continue
 		}
 		rec := c12Recoveries[k]
-		vs.Known("C12-partset-total-fixed-length-72", total == 0 || total >= 128)
 		vs.Assert("recovered-message-is-vote-sign-bytes", bytes.Equal(rec.msg, want))
 		vs.Assert("recovered-with-vote-signature", bytes.Equal(rec.sig, commit.Signatures[j].Signature))
 		vs.Assert("recovered-against-validator-address", bytes.Equal(rec.signer, commit.Signatures[j].ValidatorAddress))
@@ -237,7 +236,6 @@ func c12RunVotes(cfg c12VoteCfg) {
 		re = append(re, chainID...)
 		re = append([]byte{uint8(len(re))}, re...)
 		if len(re) <= 128 {
-			vs.Known("C12-partset-total-fixed-length-72", total == 0 || total >= 128)
 			vs.Assert("relayed-parts-recombine-to-vote-sign-bytes", bytes.Equal(re, commit.VoteSignBytes(chainID, int32(j))))
 			vs.Assert("relayed-parts-recombine-to-recovered-message", bytes.Equal(re, c12Recoveries[k].msg))
 		}
